@@ -526,7 +526,7 @@ pub fn run(ctx_: &Ctx) {
     // the watchdog thread needs 'static; the context lives until process exit
     let ctx: &'static Ctx = unsafe { &*(ctx_ as *const Ctx) };
     start_watchdog(ctx);
-    ctx.set_rule("(a) every byte string of length <=2 (thorough: <=3) after a valid header, quick also 200000 generated of length 3; (b) grid value-tag 0x00-0xff x value-length {0..16,0xffff} x 5 fill patterns as a single-attribute message, complete and truncated, and the same (tag, body) through IppValue::parse; (c) tags 0x35/0x36 x outer length 0..12 x inner length pairs {0..14,0xff,0xffff}^2; (d) all sequences of up to k protocol tokens (quick k=4, thorough k=5); (e) grammar-aware mutants of generated wire trees + model encodings + raw bytes (proptest); (f) structural bombs in child processes on a 2 MiB stack (13 families x sizes up to 1 MiB, thorough 4 MiB, closed/unterminated/truncated variants). Every input goes to the blocking parser and the async parser (whole and 1-byte chunks with not-ready results); Ok results are displayed, debug-formatted, re-encoded, traversed, cloned, compared and dropped. Non-trivial = the input passes the 8-byte header and reaches at least one tag dispatch (length >= 9); enumerated inputs are pairwise distinct by construction, generated ones are counted by hash.");
+    ctx.set_rule("(a) every byte string of length <=2 (thorough: <=3) after a valid header, quick also 200000 generated of length 3; (b) grid value-tag 0x00-0xff x value-length {0..16,0xffff} x 5 fill patterns as a single-attribute message, complete and truncated, and the same (tag, body) through IppValue::parse; (c) tags 0x35/0x36 x outer length 0..12 x inner length pairs {0..14,0xff,0xffff}^2; (d) all sequences of up to k protocol tokens (quick k=4, thorough k=5); (e) grammar-aware mutants of generated wire trees + model encodings + raw bytes (proptest); (e') the search of (e) once more, and 1645 long single text values (lengths 100-140, 254-257, 1023-1025; ASCII, 2-/3-/4-byte characters at every alignment, invalid UTF-8), with a `log` logger installed and enabled at trace level so that the code inside the parser's logging statements runs; (f) structural bombs in child processes on a 2 MiB stack (13 families x sizes up to 1 MiB, thorough 4 MiB, closed/unterminated/truncated variants). Every input goes to the blocking parser and the async parser (whole and 1-byte chunks with not-ready results); Ok results are displayed, debug-formatted, re-encoded, traversed, cloned, compared and dropped. Non-trivial = the input passes the 8-byte header and reaches at least one tag dispatch (length >= 9); enumerated inputs are pairwise distinct by construction, generated ones are counted by hash.");
     ctx.assume("'no stack overflow' is decided for a 2 MiB thread stack (Rust's default for spawned threads) and inputs up to 1 MiB (4 MiB thorough)");
     ctx.assume("a hang is reported when one input yields no result for 30 s in-process / 240 s for a bomb child");
 
@@ -701,6 +701,52 @@ pub fn run(ctx_: &Ctx) {
         |inp| bytes_case(&inp.bytes()),
     );
 
+    // (e') the same search again with a logger installed and enabled at trace level (as RUST_LOG=trace
+    // with env_logger does): the code inside the parser's logging statements then runs on every input
+    set_trace_logging(true);
+    let (shards, per) = ctx.tier.pick((16, 2500), (16, 40000));
+    run_prop(
+        ctx,
+        "mutants-trace-logging",
+        shards,
+        per,
+        input_strategy,
+        |inp: &Input, p| {
+            let b = inp.bytes();
+            p.label("e': trace-level logging on");
+            if b.len() >= 9 {
+                p.nontrivial(hash64(&("traced", &b)));
+            }
+            total_one(&b).map(|_| ()).map_err(|f| Fail::new(format!("{}/trace-logging", f.sig), format!("with a logger enabled at trace level: {}", f.msg)))
+        },
+        |inp| json!({"bytes": hex(&inp.bytes()), "trace_logging": true}),
+    );
+    // long text values around the lengths a log line would be cut at, valid and invalid UTF-8
+    let mut n = 0u64;
+    'long: for tag in [0x41u8, 0x42, 0x44, 0x45, 0x30, 0x35, 0x7f] {
+        for len in (100usize..=140).chain([254, 255, 256, 257, 1023, 1024, 1025]) {
+            for f in 0..5u8 {
+                let body = match f {
+                    0 => vec![b'a'; len],
+                    1 => "\u{e9}".repeat(len / 2 + 1).into_bytes()[..len].to_vec(),
+                    2 => std::iter::once(b'a').chain("\u{e9}".repeat(len / 2 + 1).into_bytes()).take(len).collect(),
+                    3 => vec![0xff; len],
+                    _ => "\u{20ac}\u{1f5a8}".repeat(len / 7 + 1).into_bytes()[..len].to_vec(),
+                };
+                let m = single_attr_msg(tag, len as u16, &body);
+                n += 1;
+                if let Err(fl) = total_one(&m) {
+                    report(ctx, "long-values-trace-logging", Fail::new(format!("{}/trace-logging", fl.sig), format!("with a logger enabled at trace level: {}", fl.msg)), json!({"bytes": hex(&m), "trace_logging": true}));
+                    break 'long;
+                }
+            }
+        }
+    }
+    ctx.evals_add(n);
+    ctx.nontrivial_enumerated(n);
+    ctx.label_n("e': long single values with trace logging", n);
+    set_trace_logging(false);
+
     // (f) bombs
     bombs(ctx);
 }
@@ -728,6 +774,9 @@ pub fn replay(_ctx: &Ctx, sub: &str, case: &Value) -> Judge {
         return total_one(&seq_bytes(&seq)).map(|_| ());
     }
     let bytes = unhex(case.get("bytes").and_then(|b| b.as_str()).unwrap_or("")).ok_or_else(|| Fail::new("bad-replay", "bytes"))?;
+    if case.get("trace_logging").and_then(|b| b.as_bool()) == Some(true) || sub.starts_with("fuzz-") {
+        set_trace_logging(true);
+    }
     // a hang replays as a hang: run under a local deadline
     let (tx, rx) = std::sync::mpsc::channel();
     let b2 = bytes.clone();
